@@ -15,7 +15,10 @@ The functions are read with `ast` and translated STATEMENT BY STATEMENT into Lea
 `src_transform_eq_image_model`, `src_fit_transform_eq_model` (hand-written lemmas in Lemmas/SrcBridgeImage.lean).
 
 Semantics of the subset (the translator's conventions):
-  * straight-line code is SSA-renamed (`x`, `x_1`, ...), every assignment is a `let`; an `if` that is followed by more statements
+  * straight-line code is SSA-renamed (`x`, `x_1`, ...; a version `x_k`, a `_`-suffixed name or a guard name of the translator that
+    is spelled like ANY identifier of the Python function is refused: no capture between a Python local and an SSA name),
+    every assignment is a `let`, and every generated binding has to be READ behind it (a statement whose stored value nothing reads is
+    outside the subset: `rfl` would absorb the dead `let`); an `if` that is followed by more statements
     is an if-expression yielding the names its branches re-assign (or assign in both branches); an `if` whose branch gives a name
     a value of another type (`pers_imgs = pers_imgs[0]`), or whose body returns, takes the rest of the function into its branches;
   * every definition returns `Option`: `none` = the source raises there -- `np.zeros` of a negative dimension, `l[i]` out of
@@ -30,7 +33,8 @@ Semantics of the subset (the translator's conventions):
     `np.meshgrid(x, y, indexing="ij")` is `bb[a][b] = x[a]`, `pp[a][b] = y[b]`; `.flatten(order="C")` has entry
     `[k] = A[k / c][k % c]`; `np.reshape(v, (r, c), order="C")` has `[a][b] = v[a * c + b]`; `np.zeros(shape)` is 0 everywhere;
     an array bound to a name is a `let` of an `Arr1` / `Arr2` value, `return A` returns its rows (`Arr2.toMat`);
-  * an `(n, 2)` diagram is the list of its rows (pairs); `X.shape[0]` is its length; arrays are VALUES: `np.copy(X)` is `X` and
+  * an `(n, 2)` diagram is the list of its rows (pairs); `X.shape[0]` is its length; arrays are VALUES: `Y = np.copy(X)` is `Y := X`
+    (accepted only as a whole assignment to a name; the statement text is pinned, `src__transform_conversions`) and
     every in-place update makes a new value -- which agrees with NumPy as long as nobody else holds the updated array, so
     `X[:, 1] = e` and `A += e` are accepted only under a name that this function bound by `np.copy(…)` / `np.zeros(…)` (or by
     such an update), and giving an array or a view of it a second name (`y = x`, `v = A[1:, 1:]`) is outside the subset;
@@ -55,13 +59,16 @@ Semantics of the subset (the translator's conventions):
     parameters, a parameter that is not passed takes its default (`skew=True`; a default `None` is outside the subset);
     `[f(x) for x in xs]` and `joblib.Parallel(n_jobs=n_jobs)(delayed(f)(x) for x in xs)` are both the ordered map `xs.mapM`;
   * `len(pers_dgms)` of the user's input is `SrcLib.Image.inputLen`; `x is not None` on `n_jobs` is `.isSome`; `a == b` on
-    floats is `==` (`BEq α`), `and` of two such tests is `&&`; float literals that denote an integer are numerals (`0.0` -> `0`);
+    floats is `==` (`BEq α`), `and` of two such tests is `&&`; float literals that denote an integer are numerals (`0.0` -> `0`)
+    where a float stands (an index, a column number, a dimension, a `range` bound has to be an INT literal: `x[:, 0.0]`, `n + 1.0` as a
+    dimension raise in Python and are outside the subset);
   * `return e` in `transform`: an array or one image is `Output.image`, a list of images `Output.images`.
 What is not translated is pinned as text: `srcSkeleton_ensure_iterable` (its whole body), `srcSignature_…` of the four functions,
 `srcBindings_image`, `srcAttrWrites_image`, `srcGetters_image`.
 """
 import ast
 import os
+import re
 
 from .py2lean import (Shape, LEAN_RESERVED, lean_str, strip_doc, GEN, bindings_section, signature_text,
                       sanitize, not_translated, not_translated_comment, dotted)
@@ -221,7 +228,75 @@ def render(n, ind, wrap):
     raise Shape("internal: IR node %r" % (n,))
 
 
+# ----------------------------------------------------------------------------- liveness of the GENERATED bindings
+
+_TOK = re.compile(r"(?<![\w.'])[A-Za-z_Φ][\w'Φ]*")
+
+
+def _toks(text):
+    """the identifiers a Lean text mentions (field / namespace components behind a `.` are not names of binders)"""
+    return set(_TOK.findall(text))
+
+
+def live(n, what):
+    """the names the IR `n` reads.  Shape if it binds a name that nothing behind the binding reads: a store that `rfl` (zeta)
+    would absorb, so that the edited and the unedited source would have the same obligations"""
+    if isinstance(n, Ret):
+        return set().union(*[_toks(v) for v in n.vals]) if n.vals else set()
+    if isinstance(n, Fail):
+        return set()
+    if isinstance(n, Raw):
+        return _toks(n.text)
+    if isinstance(n, Ite):
+        return _toks(n.cond) | live(n.a, what) | live(n.b, what)
+    if isinstance(n, (Let, LetMatch, MatchOpt, MatchExc, Join)):
+        u = live(n.body, what)
+        pats = _TOK.findall(n.name if isinstance(n, (Let, LetMatch)) else n.pat)
+        dead = [x for x in pats if x not in u]
+        if dead:
+            raise Shape("%s: the value bound to `%s` is never read (a dead store: the definitional unfolding would absorb it)"
+                        % (what, "`, `".join(dead)))
+        return (u - set(pats)) | (live(n.inner, what) if isinstance(n, Join) else _toks(n.text))
+    raise Shape("internal: IR node %r" % (n,))
+
+
 # ----------------------------------------------------------------------------- the translator
+
+def function_idents(fn):
+    """every identifier that occurs in the Python function: names, parameters, attribute and keyword names, nested definitions,
+    imports, `global` / `nonlocal` / `except … as` names"""
+    out = set()
+    for x in ast.walk(fn):
+        if isinstance(x, ast.Name):
+            out.add(x.id)
+        elif isinstance(x, ast.arg):
+            out.add(x.arg)
+        elif isinstance(x, ast.Attribute):
+            out.add(x.attr)
+        elif isinstance(x, ast.keyword) and x.arg:
+            out.add(x.arg)
+        elif isinstance(x, (ast.FunctionDef, ast.AsyncFunctionDef, ast.ClassDef)):
+            out.add(x.name)
+        elif isinstance(x, ast.alias):
+            out.update((x.asname or x.name).split("."))
+        elif isinstance(x, (ast.Global, ast.Nonlocal)):
+            out.update(x.names)
+        elif isinstance(x, ast.ExceptHandler) and x.name:
+            out.add(x.name)
+        elif isinstance(x, ast.pattern):
+            out.update(v for v in (getattr(x, "name", None), getattr(x, "rest", None)) if isinstance(v, str))
+    return out
+
+
+def lit_int(n):
+    """the value of an int LITERAL (`1`, `-1`; not `1.0`, not `True`), else None: what an index, an axis, a dimension has to be"""
+    if isinstance(n, ast.UnaryOp) and isinstance(n.op, ast.USub):
+        v = lit_int(n.operand)
+        return None if v is None else -v
+    if isinstance(n, ast.Constant) and type(n.value) is int:
+        return n.value
+    return None
+
 
 def const_int(n):
     """the integer a constant denotes (`1`, `1.0`, `-1`), else None"""
@@ -249,9 +324,9 @@ def slice_kind(n):
         return None
     if n.lower is None and n.upper is None:
         return "all"
-    if n.upper is None and const_int(n.lower) == 1 and isinstance(n.lower, ast.Constant) and isinstance(n.lower.value, int):
+    if n.upper is None and lit_int(n.lower) == 1:
         return "from1"
-    if n.lower is None and const_int(n.upper) == -1:
+    if n.lower is None and lit_int(n.upper) == -1:
         return "to-1"
     return None
 
@@ -266,13 +341,20 @@ class Tr:
         self.reads = []                                         # names of the enclosing definition a loop body reads
 
     # -- names
-    def fresh(self, py):
+    def fresh(self, py, synthetic=False):
+        """a Lean name for a (new version of a) Python name.  The first version of `x` is `x` itself; every OTHER name this hands
+        out -- a later SSA version `x_k`, a name changed by `sanitize` / a `_` suffix, a name of the translator's own
+        (`synthetic`: the guards `t`, `z`) -- must not occur as an identifier anywhere in the Python function: otherwise a Python
+        local of that spelling and the translator's name would be one Lean binder (name capture)"""
         base = py if py.isidentifier() else (sanitize(py) or "v")
-        if base in RESERVED:
-            base += "_"
+        if base in RESERVED or any(a[0] == "param" and a[1] == base for a in self.cfg.get("self_attrs", {}).values()):
+            base += "_"                                  # (a parameter of the definition that stands for `self.<attr>`: not a local)
         k = self.count.get(base, 0)
         self.count[base] = k + 1
-        return base if k == 0 else "%s_%d" % (base, k)
+        nm = base if k == 0 else "%s_%d" % (base, k)
+        if nm in self.ctx.get("idents", ()) and (synthetic or nm != py):
+            raise Shape("the translator's name `%s` (a version of `%s`) is an identifier of the function" % (nm, py))
+        return nm
 
     def bind(self, py, ty, owned=False):
         nm = self.fresh(py)
@@ -307,7 +389,7 @@ class Tr:
         return node
 
     def hoist(self, text, ty, base="t"):
-        nm = self.fresh(base)
+        nm = self.fresh(base, synthetic=True)
         self.pre.append((nm, text))
         return E(nm, ty)
 
@@ -333,6 +415,8 @@ class Tr:
             k = const_int(n)
             if k is None or k < 0:
                 raise Shape("constant outside the subset: %r" % (n.value,))
+            if isinstance(n.value, float) and want in ("N", "Z"):         # `x + 1.0` where an int is needed: a float in Python
+                raise Shape("a float literal where an int is needed: %r" % (n.value,))
             ty = want if want in ("A", "N", "Z") else ("A" if isinstance(n.value, float) else "Z")
             return E(str(k), ty)
         if isinstance(n, ast.Name):
@@ -433,12 +517,12 @@ class Tr:
         v, s = n.value, n.slice
         # sigma[i][j] on the four entries of the 2x2 matrix
         if isinstance(v, ast.Subscript) and isinstance(v.value, ast.Name) and self.env.get(v.value.id, (None, None))[1] == "M2":
-            i, j = const_int(v.slice), const_int(s)
+            i, j = lit_int(v.slice), lit_int(s)
             if i not in (0, 1) or j not in (0, 1):
                 raise Shape("index of the 2x2 matrix outside the subset: %s" % ast.unparse(n))
             nm = self.lookup(v.value.id, n)[0]
             return E(nm + [".1", ".2.1", ".2.2.1", ".2.2.2"][2 * i + j], "A")
-        if isinstance(v, ast.Attribute) and v.attr == "shape" and isinstance(v.value, ast.Name) and const_int(s) == 0 \
+        if isinstance(v, ast.Attribute) and v.attr == "shape" and isinstance(v.value, ast.Name) and lit_int(s) == 0 \
                 and self.env.get(v.value.id, (None, None))[1] == "DGM":
             return E("%s.length" % self.lookup(v.value.id, n)[0], "N", 90)
         if not isinstance(v, ast.Name):
@@ -446,27 +530,27 @@ class Tr:
         nm, ty = self.lookup(v.id, n)
         parts = list(s.elts) if isinstance(s, ast.Tuple) else [s]
         if ty == "DGM":
-            if len(parts) == 2 and full_slice(parts[0]) and const_int(parts[1]) in (0, 1):       # a column, inside a row-wise expression
+            if len(parts) == 2 and full_slice(parts[0]) and lit_int(parts[1]) in (0, 1):       # a column, inside a row-wise expression
                 if self.row is None or self.row[0] != v.id:
                     raise Shape("a column of `%s` outside an elementwise expression over its rows: %s" % (v.id, ast.unparse(n)))
-                return E("%s.%d" % (self.row[1], const_int(parts[1]) + 1), "A")
+                return E("%s.%d" % (self.row[1], lit_int(parts[1]) + 1), "A")
             if len(parts) == 2 and isinstance(parts[0], ast.Name) and self.env.get(parts[0].id, (None, None))[1] == "N":
                 i = self.lookup(parts[0].id, n)[0]
                 row = self.hoist("%s[%s]?" % (nm, i), "ROW")
                 if full_slice(parts[1]):
                     return row
-                if const_int(parts[1]) in (0, 1):
-                    return E("%s.%d" % (row.t, const_int(parts[1]) + 1), "A")
+                if lit_int(parts[1]) in (0, 1):
+                    return E("%s.%d" % (row.t, lit_int(parts[1]) + 1), "A")
             raise Shape("index of a diagram outside the subset: %s" % ast.unparse(n))
         if ty in ("VEC", "LIMG"):
             if len(parts) == 1 and isinstance(parts[0], ast.Name) and self.env.get(parts[0].id, (None, None))[1] == "N":
                 return self.hoist("%s[%s]?" % (nm, self.lookup(parts[0].id, n)[0]), "A" if ty == "VEC" else "IMG")
-            if len(parts) == 1 and ty == "LIMG" and const_int(parts[0]) == 0:
+            if len(parts) == 1 and ty == "LIMG" and lit_int(parts[0]) == 0:
                 return self.hoist("%s[0]?" % nm, "IMG")
             raise Shape("index of a list outside the subset: %s" % ast.unparse(n))
         if ty == "RES":
-            if len(parts) == 1 and const_int(parts[0]) in (0, 1):
-                return E("%s.%d" % (nm, const_int(parts[0]) + 1), "Z")
+            if len(parts) == 1 and lit_int(parts[0]) in (0, 1):
+                return E("%s.%d" % (nm, lit_int(parts[0]) + 1), "Z")
             raise Shape("index of the resolution outside the subset: %s" % ast.unparse(n))
         if ty == "KP":
             if len(parts) == 1 and isinstance(parts[0], ast.Constant) and parts[0].value == "sigma":
@@ -524,6 +608,8 @@ class Tr:
         if name in table and table[name][0] == "id":                        # np.copy(X)
             if len(n.args) != 1 or n.keywords:
                 raise Shape("call outside the subset: %s" % ast.unparse(n))
+            if n is not getattr(self, "rhs", None):          # read as the identity only where the statement text is pinned
+                raise Shape("`%s` outside `<name> = %s(<array>)`: %s" % (name, name, ast.unparse(n)))
             return self.expr(n.args[0], want)
         if name in table and table[name][0] == "scalar_fn":                 # np.sqrt(x) on a float
             if len(n.args) != 1 or n.keywords:
@@ -881,7 +967,7 @@ class Tr:
         t, v = s.targets[0], s.value
         # X[:, j] = e  (e built from the columns of X and scalars): the map over the rows
         if isinstance(t, ast.Subscript) and isinstance(t.value, ast.Name) and isinstance(t.slice, ast.Tuple) and len(t.slice.elts) == 2 \
-                and full_slice(t.slice.elts[0]) and const_int(t.slice.elts[1]) in (0, 1):
+                and full_slice(t.slice.elts[0]) and lit_int(t.slice.elts[1]) in (0, 1):
             nm, ty = self.lookup(t.value.id, s)
             if ty != "DGM" or self.row is not None:
                 raise Shape("column assignment outside the subset: %s" % ast.unparse(s))
@@ -894,7 +980,7 @@ class Tr:
                 self.row = None
             if self.pre:
                 raise Shape("a column-wise expression can raise: %s" % ast.unparse(s))
-            j = const_int(t.slice.elts[1])
+            j = lit_int(t.slice.elts[1])
             new = self.bind(t.value.id, "DGM", owned=True)
             text = "%s.map (fun r => %s)" % (nm, "(r.1, %s)" % e.t if j == 1 else "(%s, r.2)" % e.t)
             return Let(new, LEAN_TY["DGM"], text, kk())
@@ -934,7 +1020,8 @@ class Tr:
         fresh_array = isinstance(v, ast.Call) and (self.safe_dotted(v.func) == "np.zeros"
                                                   or self.cfg.get("calls", {}).get(self.safe_dotted(v.func), ("",))[0] == "id")
         if fresh_array and self.cfg.get("calls", {}).get(self.safe_dotted(v.func), ("",))[0] == "id":
-            self.ctx["conversions"].append(ast.unparse(v))
+            self.ctx["conversions"].append(ast.unparse(s))                 # the whole statement: target, call and argument
+            self.rhs = v
         e = self.expr(v, self.env.get(t.id, (None, None))[1] if self.env.get(t.id, (None, None))[1] in ("A", "N", "Z") else None)
         lt = self.bind_value(t.id, e, owned=fresh_array)
         pre = self.take_pre()
@@ -1123,6 +1210,7 @@ class Tr:
         body = sub.block(list(s.body), lambda: Ret([sub.env[cname][0]]))
         if sub.pre:
             raise Shape("internal: pending guards")
+        live(body, name)                                   # no dead store among the generated bindings of the loop body
         inv = [py for py in self.order if py in sub.reads and py != cname and py != s.target.id]
         fps = [f for f, _ in self.cfg["fparams"] if f in sub.used_f]
         for f in fps:
@@ -1171,6 +1259,7 @@ def translate(fn, cfg, ctx):
     names = [x.arg for x in a.args]
     if set(names) != set(cfg["params"]) or (names and cfg.get("method") and names[0] != "self"):
         raise Shape("parameters of %s are %s, the translator's table has %s" % (fn.name, names, list(cfg["params"])))
+    ctx["idents"] = function_idents(fn)
     tr = Tr(cfg, ctx)
     ctx["loopno"] = [0]
     binders = list(cfg["fparams"])
@@ -1190,6 +1279,7 @@ def translate(fn, cfg, ctx):
     node = tr.block(strip_doc(fn.body), end)
     if tr.pre:
         raise Shape("internal: pending guards")
+    live(node, cfg["lean"])                                # no dead store among the generated bindings
     monad = cfg.get("monad", "option")
     if monad == "except":
         def has_opt(n):
@@ -1399,7 +1489,7 @@ PIN_TARGET = dict(file="image", func="PersistenceImager._ensure_iterable", lean=
 ENSURE_ITERABLE_BODY = (
     "try:\n    singular = not isinstance(pers_dgms[0][0], Iterable)\nexcept IndexError:\n    singular = False\n"
     "if singular:\n    pers_dgms = [pers_dgms]\nreturn (pers_dgms, singular)")
-CONVERSIONS = ["np.copy(pers_dgm)", "np.array([[sigma, 0.0], [0.0, sigma]], dtype=np.float64)"]
+CONVERSIONS = ["pers_dgm = np.copy(pers_dgm)", "np.array([[sigma, 0.0], [0.0, sigma]], dtype=np.float64)"]
 ATTR_WRITES = [
     ("__init__", "self.weight, self.kernel = self._ensure_callable(weight=weight, kernel=kernel)"),
     ("__init__", "self.weight_params = weight_params"),
@@ -1490,7 +1580,7 @@ def manifest_note(key):
             "meshgrid, the loops).  An edit of a translated line breaks the obligation of the definition it lands in (or "
             "`srcShape_<f>_recognised` when it leaves the subset) and triggers the failing-input search, except a renaming of locals or "
             "a reordering that the `let`s absorb.  Pinned as text: the body of `_ensure_iterable` (`src_ensure_iterable_skeleton`; its "
-            "model is `Imager.ensureIterable`), the four signatures, the constructions `np.copy(pers_dgm)` and `np.array([[sigma, 0.0], "
+            "model is `Imager.ensureIterable`), the four signatures, the constructions `pers_dgm = np.copy(pers_dgm)` and `np.array([[sigma, 0.0], "
             "[0.0, sigma]], dtype=np.float64)` (`src__transform_conversions`), the module- and class-level bindings of the names used "
             "(`src_image_bindings`), every assignment in the class to the attributes `transform` reads (`src_image_attr_writes`) and "
             "the getter of `resolution` (`src_image_getters`).  Not tied by this translator: float rounding, `_validate_parameters` / "
